@@ -9,6 +9,8 @@ every sublist of the pending directory operations with every admissible data (th
 is left.
 -/
 import Banyan.Model.C04Seg
+import Banyan.Lemmas.C04SegEnum
+import Banyan.Props.C04SegFirst
 
 namespace Banyan.C04Seg
 open Banyan.FS
@@ -17,29 +19,35 @@ open Banyan.FS
     crash outcome of either crash relation — start-up recovers. -/
 theorem seg_crash_recovers_atomic :
     (List.range ((history true 3).length + 1)).all (fun cut => (crashTrees true 3 cut).all recoversOK) = true := by
-  decide
+  have h1 := seg_crash_recovers_atomic_first
+  have h2 : ((List.range 22).map (· + 24)).all (fun cut => (crashTrees true 3 cut).all recoversOK) = true := by decide
+  rw [List.all_eq_true] at h1 h2 ⊢
+  intro cut hcut
+  have hlen : (history true 3).length = 45 := by decide
+  rw [hlen, List.mem_range] at hcut
+  by_cases hlo : cut < 24
+  · exact h1 cut (List.mem_range.2 hlo)
+  · exact h2 cut (List.mem_map.2 ⟨cut - 24, List.mem_range.2 (by omega), by omega⟩)
 
-/-- **As written** the property fails.  A power loss right after the first table of the first segment became
-    durable (cut 9 = `create` … `fsync(data)`, before anything else): the directory entry `seg/metadata` is durable
-    (the shard's `mkdir` fsynced `seg`), its content is not; start-up classifies the segment as half-born and
-    removes it together with the table's rows. -/
-theorem seg_as_written_loses_rows :
-    (crashTrees false 1 ((createSeg false 0).length + 5)).any (fun t =>
-      hasRows t 0 && isFile t [.seg 0, .metadata] && readFile t [.seg 0, .metadata] == some [] &&
-      (match openSegs t with
-        | .ok loaded t' => loaded == [] && !exists_ t' [.seg 0, .shard, .data]
-        | .err _ => false)) = true := by decide
+/-! ### the same, about the crash relations themselves (`mem_crashTrees`: the enumeration is complete) -/
 
-/-- … and a partially surviving `metadata` (the un-fsynced `write` cut in the middle) makes `OpenTSDB` fail for
-    the whole group. -/
-theorem seg_as_written_fails_to_open :
-    (crashTrees false 1 (createSeg false 0).length).any (fun t =>
-      readFile t [.seg 0, .metadata] == some [1] &&
-      (match openSegs t with | .err _ => true | .ok _ _ => false)) = true := by decide
-
-/-- as written, some outcome violates the property at every cut from the `write` of the first metadata on -/
-theorem seg_as_written_violations :
-    ((List.range ((history false 1).length + 1)).filter (fun cut =>
-      (crashTrees false 1 cut).any (fun t => !recoversOK t))) = [4, 5, 6, 7, 8, 9, 10, 11] := by decide
+/-- **With the repair**: three segments, any number of system calls, `kill -9` or any power-loss outcome
+    (`FS.crashPower`: any subset of the pending directory operations, any admissible data) — start-up opens, every
+    segment whose table holds rows survives with them, no half-born directory is left. -/
+theorem seg_crash_recovers (cut : Nat) (t : Tree)
+    (h : t = crashKill (cutState true 3 cut) ∨ crashPower (cutState true 3 cut) t) : recoversOK t = true := by
+  have hall := seg_crash_recovers_atomic
+  rw [List.all_eq_true] at hall
+  by_cases hc : cut ≤ (history true 3).length
+  · have h1 := hall cut (List.mem_range.2 (by omega))
+    rw [List.all_eq_true] at h1
+    exact h1 t (mem_crashTrees true 3 cut t h)
+  · have heq : cutState true 3 cut = cutState true 3 (history true 3).length := by
+      unfold cutState
+      rw [List.take_of_length_le (by omega), List.take_length]
+    rw [heq] at h
+    have h1 := hall (history true 3).length (List.mem_range.2 (by omega))
+    rw [List.all_eq_true] at h1
+    exact h1 t (mem_crashTrees true 3 _ t h)
 
 end Banyan.C04Seg
